@@ -44,6 +44,28 @@ CLAIMED = {
             "the code uses default memory order); TSan as data-race sensor on the free runs only; the shim's "
             "compare_exchange_weak never fails spuriously.",
             "DESIGN.md 3.16"),
+    "C01": ("TLA+ reference semantics of the typed writers/readers (spec/ByteIO): TLC checks round-trip/layout laws "
+            "in small scope and validates every recorded call of the real classes against Enc/Dec/Extend as the "
+            "independent decoder (trace validation)",
+            "Every one of the 66 writer and 46 reader accessor names (StringWriter, BufferWriter, StringReader, "
+            "BitWriter/BitReader) is driven with extremes, NaN payloads, -0.0, denormals and single-lane patterns in "
+            "random append / positional-write / raw / cstr / line histories and read back in order and positionally; "
+            "each event (buffer bytes after the call, returned value, cursor) is checked by TLC against the "
+            "specification's byte-order definitions.",
+            "Trusted: TLC; the harness converts between C++ scalars and bit patterns with memcpy; little-endian "
+            "host only (spec parametric). BitReader is unchecked by design and only driven in range.",
+            "DESIGN.md 3.1"),
+    "C02": ("TLA+ bounds layer of spec/ByteIO with non-wrapping size_t arithmetic: TLC checks InBounds on the "
+            "reference and validates recorded boundary sweeps and cursor histories of the real classes",
+            "For buffer lengths {0,8} (thorough {0,1,2,7,8,64}) every (offset,size) pair from a ~20-value boundary "
+            "set incl. 2^31, 2^32, 2^63+-1, 2^64-k is applied to every positional and cursor read family, "
+            "sub-readers, skip, peek, get_line/get_cstr, BufferWriter and StringWriter positional writes, plus random "
+            "cursor histories; TLC decides each outcome (exact slice / in-range prefix / out_of_range, cursor never "
+            "past the end except after go()). ASan-built; a sanitizer report is a Crash event without action.",
+            "Trusted: TLC, ASan as memory sensor. Offsets between 2^30 and 2^63 that would make StringWriter really "
+            "allocate are not driven. For void* readx/preadx a zero-size request at offset = length may throw "
+            "(follows the code; the statement allows either).",
+            "DESIGN.md 3.2"),
 }
 
 NOT_YET = "check not built yet in this round (planned: see DESIGN.md section 3)"
